@@ -57,6 +57,8 @@ func buildC07(tier string) sim.Scenario {
 		tp := w.Tape
 		sw = newSvcWorld(w, false, tp.Bool(), nil, nil)
 		hostileSDP := tp.OneIn(6)
+		var faultNames []string
+		tsCorrupted := false // a fault changed the RTP timestamp field of an otherwise well-formed video packet
 		nFaults := 1 + tp.Choose(3)
 
 		// second stream + consumer, second session
@@ -214,6 +216,9 @@ func buildC07(tier string) sim.Scenario {
 					d[k] = byte(tp.Raw())
 					raw = frame(&rtp.Packet{Channel: tmpl.Channel, Data: d})
 					name = fmt.Sprintf("corrupt@%d", k)
+					if k >= 4 && k <= 7 {
+						tsCorrupted = true
+					}
 				case 4: // header only / shorter than a header
 					k := []int{12, 0, 1, 11, 13, 14}[tp.Choose(6)]
 					raw = frame(&rtp.Packet{Channel: tmpl.Channel, Data: tmpl.Data[:k]})
@@ -247,7 +252,9 @@ func buildC07(tier string) sim.Scenario {
 					}
 					raw = frame(&rtp.Packet{Channel: tmpl.Channel, Data: g})
 					name = "random-bytes"
+					tsCorrupted = true // random header bytes: a random RTP timestamp
 				}
+				faultNames = append(faultNames, name)
 				w.Fault(name[:minInt(len(name), 8)])
 				w.Logf("fault %s (%d bytes on the wire)", name, len(raw))
 				w.Probe("c07.fault-injected")
@@ -269,7 +276,7 @@ func buildC07(tier string) sim.Scenario {
 
 		// ---- oracle ----
 		if media.Get("/live/p") != stream || stream.VerifStatus() != media.StreamOK {
-			w.Fail("C07/session-lost", "the publisher's stream is gone after malformed input (registered=%v status=%d): the session was torn down by media bytes", media.Get("/live/p") == stream, stream.VerifStatus())
+			w.Fail("C07/session-lost", "the publisher's stream is gone after malformed input %v (registered=%v status=%d): the session was torn down by media bytes", faultNames, media.Get("/live/p") == stream, stream.VerifStatus())
 			return
 		}
 		if pusher.c.PeerClosed() {
@@ -285,7 +292,7 @@ func buildC07(tier string) sim.Scenario {
 		_ = got
 		for i := firstClean; i < len(sent); i++ {
 			if !gotData[string(sent[i].p.Data)] {
-				w.Fail("C07/relay-stopped", "well-formed packet %d sent after the malformed input was not relayed to the RTP consumer", i)
+				w.Fail("C07/relay-stopped", "well-formed packet %d sent after the malformed input %v was not relayed to the RTP consumer", i, faultNames)
 				return
 			}
 		}
@@ -308,7 +315,7 @@ func buildC07(tier string) sim.Scenario {
 		for i := firstClean; i < len(sent); i++ {
 			for _, n := range sent[i].nals {
 				if !inFlv[string(n)] {
-					w.Fail("C07/flv-stopped", "a NAL unit (type %d, %d bytes) sent after the malformed input never reached the FLV viewer: conversion stopped", n[0]&0x1f, len(n))
+					w.Fail("C07/flv-stopped", "a NAL unit (type %d, %d bytes) sent after the malformed input %v never reached the FLV viewer: conversion stopped", n[0]&0x1f, len(n), faultNames)
 					return
 				}
 			}
@@ -327,7 +334,11 @@ func buildC07(tier string) sim.Scenario {
 		}
 		body, err := hl.M3u8("")
 		if err != nil {
-			w.Fail("C07/hls-stopped", "after four clean GOPs 6 s apart the playlist is still not available: %v", err)
+			why := ""
+			if tsCorrupted {
+				why = " [one media packet carried a corrupted RTP timestamp field: a timestamp discontinuity]"
+			}
+			w.Fail("C07/hls-stopped", "after four clean GOPs 6 s apart the playlist is still not available: %v (faults %v)%s", err, faultNames, why)
 			return
 		}
 		pl, err := oracle.ParseM3U8(string(body))
@@ -366,7 +377,11 @@ func buildC07(tier string) sim.Scenario {
 			}
 		}
 		if !found {
-			w.Fail("C07/hls-stopped", "none of the listed segments carries a frame sent after the malformed input")
+			why := ""
+			if tsCorrupted {
+				why = " [one media packet carried a corrupted RTP timestamp field: a timestamp discontinuity]"
+			}
+			w.Fail("C07/hls-stopped", "none of the listed segments carries a frame sent after the malformed input (faults %v)%s", faultNames, why)
 			return
 		}
 		// (e) the other stream and session
